@@ -64,7 +64,18 @@ DefLt(k, i) == IF i = 1 THEN "p" ELSE "q"           \* names of the struct defin
 \*                rst2 St2<'1,'2> | ropqlt &'1 OpLt<'2> (implies '2: '1)
 \*                rerr1 Result<(), Er1<'1>> | rwerr1 Result<(), Er1<'1>> with a write-out | rokerr Result<&'1 Opq, Er1<'2>>
 \*                (the ERROR type of a fallible method is part of the returned value: the thrown error object borrows, too)
+\* PARTLY elided returns (the reference's own lifetime left out, a lifetime ARGUMENT written):
+\*                ropqlt_e &OpLt<'1> | rokerr_e Result<&Opq, Er1<'1>>
+\*                Rust's elision rule gives the elided borrow the lifetime of `&'l self`: with a NAMED 'l the signature is the
+\*                same as the one with 'l written out (Desugar); with `&self` (or no self) the borrow stays anonymous, and an
+\*                anonymous lifetime in a return type is refused -- wherever in the type it stands
 RSlots(k) == IF k \in {"rst2", "ropqlt", "rokerr"} THEN 2 ELSE 1
+ElidedRet(k) == k \in {"ropqlt_e", "rokerr_e"}
+BaseKind(k) == IF k = "ropqlt_e" THEN "ropqlt" ELSE IF k = "rokerr_e" THEN "rokerr" ELSE k
+SelfNamed(s) == s.self.kind # "none" /\ s.self.slots[1] \in L
+Desugar(s) == IF ElidedRet(s.ret.kind) /\ SelfNamed(s)
+                THEN [s EXCEPT !.ret = [kind |-> BaseKind(s.ret.kind), slots |-> <<s.self.slots[1]>> \o s.ret.slots]]
+                ELSE s
 
 Tuples(S, n) == IF n = 1 THEN {<<x>> : x \in S} ELSE {<<x, y>> : x \in S, y \in S}
 \* only the lifetime of a reference itself may be left anonymous; lifetime arguments of named types are written out
@@ -111,7 +122,13 @@ Spelled(s) == s.decl \cup RefImplied(s)
 MustRestate(s) == {pr \in DefImplied(s) \cup PselfImplied(s) : pr[1] \in L /\ pr[2] \in L /\ pr[1] # pr[2]}
 \* "spelled out" = entailed by what is written on the method: the transitive closure of the declared bounds and
 \* of the bounds that reference types imply by themselves
-Accepted(s) == MustRestate(s) \subseteq TC(Named(Spelled(s)))
+AcceptedCore(s) == MustRestate(s) \subseteq TC(Named(Spelled(s)))
+\* (as built) the bound a returned `&'l OpLt<'x>` implies by itself, 'x: 'l, counts as stated only when 'l is WRITTEN: for an elided
+\* borrow that inherits 'l from `&'l self` the tool asks for it on the method ("Method should explicitly include this lifetime bound")
+RetRefImplied(s) == IF s.ret.kind = "ropqlt" THEN {<<s.ret.slots[2], s.ret.slots[1]>>} ELSE {}
+AcceptedElided(s) == LET d == Desugar(s) IN
+  SelfNamed(s) /\ (MustRestate(d) \cup Named(RetRefImplied(d))) \subseteq TC(Named(d.decl \cup (RefImplied(d) \ RetRefImplied(d))))
+Accepted(s) == IF ElidedRet(s.ret.kind) THEN AcceptedElided(s) ELSE AcceptedCore(s)
 
 \* ---- what must be kept alive ----------------------------------------------------------------
 PNames(s) == (IF s.self.kind = "none" THEN {} ELSE {"self"}) \cup {IF i = 1 THEN "x" ELSE "y" : i \in 1..Len(s.params)}
